@@ -162,6 +162,17 @@ WellFormedP(p) ==
        /\ g.uv = -1 \/ (g.uv >= 1 /\ g.uv <= p.nvt)
        /\ g.n = -1 \/ (g.n >= 1 /\ g.n <= p.nvn)
 
+\* ---------------------------------------------------------------- large files
+\* A file given by its parameters (the recorder writes it: e.nv vertices "v i 0 0", i = 0, 1, ..., and the one
+\* face e.f): only a summary is judged.  Vertex counts around 2^8 and 2^16.
+BigAllowed(e) ==
+  LET inr == \A j \in 1..3 : e.f[j] >= 1 /\ e.f[j] <= e.nv IN
+  /\ e.status # "panic"
+  /\ inr => /\ e.status = "ok" /\ e.built = "ok" /\ e.nvobs = e.nv /\ e.vlast = <<e.nv - 1, 0, 0>>
+            /\ e.faces = <<<<e.f[1] - 1, e.f[2] - 1, e.f[3] - 1>>>>
+  \* a face that refers to a missing vertex: an error (or a builder without that face)
+  /\ ~inr => (e.status = "err" \/ (e.status = "ok" /\ e.built = "ok" /\ e.faces = <<>>))
+
 \* ---------------------------------------------------------------- relation
 \* e.res = <<"ok", verts, faces, build>> | <<"err", name>> | <<"panic", 0>>
 \*   verts: sequence of <<exactflag, x, y, z>> (scaled by 1024), faces: <<a,b,c>> zero-based,
